@@ -87,6 +87,8 @@ pub fn record(args: &[String]) {
         Value::Number("9223372036854775807".parse().unwrap()), Value::Number("9223372036854775808".parse().unwrap()), Value::Number("-9223372036854775808.00".parse().unwrap()),
         Value::Number("-9223372036854775809".parse().unwrap()), Value::Number("79228162514264337593543950335".parse().unwrap()), Value::Number("0.0000000000000000000000000001".parse().unwrap()),
         Value::from("text"), Value::from(""), Value::from("é😀".to_string()), Value::from("12"), Value::from(true), Value::from(false),
+        // built directly (not through From): text with white space and line ends at its edges must survive both string conversions
+        Value::String("line\n".into()), Value::String("x\r\n".into()), Value::String(" pad ".into()), Value::String("\n".into()), Value::String("tab\t".into()), Value::String("\u{feff}bom".into()),
         Value::from(vec![]), Value::from(vec![Value::from(1), Value::from("a"), Value::None]), Value::Map(vec![]), Value::Map(vec![(Value::from(1), Value::from(2))]), Value::None,
     ];
     for v in &samples {
@@ -103,6 +105,12 @@ pub fn record(args: &[String]) {
         };
         if let Some(b) = back {
             out.line(&json!({"kind": "roundtrip", "v": value_to_json(v), "back": value_to_json(&b)}));
+        }
+        if let Value::String(s) = v {
+            // ... and through the owned-String conversion
+            if let Ok(t) = Value::from(s.clone()).string() {
+                out.line(&json!({"kind": "roundtrip", "v": value_to_json(v), "back": value_to_json(&Value::String(t))}));
+            }
         }
     }
     // integer() and float() on random decimals of every scale
